@@ -20,6 +20,11 @@ def sh(cmd, cwd=None, env=None, timeout=3000):
 
 def main():
     pid, which = sys.argv[1], sys.argv[2]
+    global SEED
+    rnd = ''
+    if '--round' in sys.argv:
+        rnd = 'r' + sys.argv[sys.argv.index('--round') + 1]
+        SEED = '/tmp/seed' + rnd[1:]
     checks = [pid]
     if '--all' in sys.argv:
         checks = ['C%02d' % i for i in range(1, 21)]
@@ -28,14 +33,14 @@ def main():
     diff = '%s/%s/%s.diff' % (SEED, pid, which)
     demo = '%s/%s/%s_demo.py' % (SEED, pid, which)
     note = '%s/%s/%s.md' % (SEED, pid, which)
-    wt = '/tmp/mut/wt-%s-%s' % (pid, which)
-    out = '/tmp/mut/out-%s-%s' % (pid, which)
+    wt = '/tmp/mut/wt-%s-%s%s' % (pid, rnd, which)
+    out = '/tmp/mut/out-%s-%s%s' % (pid, rnd, which)
     os.makedirs('/tmp/mut', exist_ok=True)
     sh(['git', '-C', '/repo', 'worktree', 'remove', '--force', wt])
     shutil.rmtree(out, ignore_errors=True)
     rc, o = sh(['git', '-C', '/repo', 'worktree', 'add', '--detach', wt, 'HEAD'])
     assert rc == 0, o
-    result = {'property': pid, 'change': which, 'repo_head': sh(['git', '-C', '/repo', 'rev-parse', '--short', 'HEAD'])[1].strip()}
+    result = {'property': pid, 'change': rnd + which, 'seed_dir': SEED, 'repo_head': sh(['git', '-C', '/repo', 'rev-parse', '--short', 'HEAD'])[1].strip()}
     try:
         rc, o = sh(['git', '-C', wt, 'apply', diff])
         result['applies'] = rc == 0
@@ -70,7 +75,7 @@ def main():
     finally:
         sh(['git', '-C', '/repo', 'worktree', 'remove', '--force', wt])
         shutil.rmtree(out, ignore_errors=True)
-        with open('/tmp/mut/result-%s-%s.json' % (pid, which), 'w') as f:
+        with open('/tmp/mut/result-%s-%s%s.json' % (pid, rnd, which), 'w') as f:
             json.dump(result, f, indent=1)
         print(json.dumps(result, indent=1))
 
